@@ -15,7 +15,7 @@ uniqueness, every level layout.
 from ..build import AnalysisBroken
 from ..paths import xgraph
 from ..program import const_val, key, strip_casts
-from ..rules import (BAD, Unsupported, always_before, argkey, cfg_sign_triple, check_automaton, check_guard,
+from ..rules import (is_incr, incr_events, BAD, Unsupported, always_before, argkey, cfg_sign_triple, check_automaton, check_guard,
                      cmp_edge, find_calls, fmt_atoms, holds, is_call, must_cross_edge_before, must_pass_before_success,
                      need_call, never_after, one_call, rel_edge, site, truth_of, CALL)
 from . import c13
@@ -149,8 +149,8 @@ def check_version_get(ctx):
             return 1
         return q
     check_automaton(ctx, "T1-level-order", "level0-first", fe, 0, step, None, "level 0 is searched before the deeper levels")
-    lv = sorted((e["op"], key(e["rhs"])) for b, i, e in fe.events("asg") if key(e["lhs"]) == "level")
-    inc = [e for b, i, e in fe.events("inc") if key(e["x"]) == "level"]
+    lv = sorted((e["op"], key(e["rhs"])) for b, i, e in fe.events("asg") if key(e["lhs"]) == "level" and not is_incr(e))
+    inc = [e for b, i, e in incr_events(fe, "level")]
     ctx.check(lv == [("=", "1")] and len(inc) == 1 and inc[0]["op"] == "++", "T1-level-order", "ascending", fe.name, fe.loc,
               "deeper levels are searched in ascending order starting at 1", "level loop changed: %s" % lv)
     # the key that selects the file in a sorted level is the lookup key itself (user key + the
@@ -312,11 +312,8 @@ def check_compaction_drop(ctx):
     gi = xgraph(P, ib)
     zeros = [(b, i, e) for (b, i, e) in ib.events("ret") if const_val(e.get("x")) == 0]
     ctx.check(len(zeros) == 1, "T2-base-level", "not-base-site", ib.name, ib.loc, "one not-base-level return", "not-base returns: %d" % len(zeros))
-    lv = [key(e["rhs"]) for b, i, e in ib.events("asg") if key(e["lhs"]) == "lvl"]
-    atoms_any = None
-    for b, i, e in ib.events("inc"):
-        if key(e["x"]) == "lvl":
-            atoms_any = True
+    lv = [key(e["rhs"]) for b, i, e in ib.events("asg") if key(e["lhs"]) == "lvl" and not is_incr(e)]
+    atoms_any = bool(incr_events(ib, "lvl", 1)) or None
     ctx.check(lv == ["(c->level + 2)"] and atoms_any, "T2-base-level", "levels", ib.name, ib.loc,
               "every level below the compaction's output level is inspected", "level range changed: %s" % lv)
     conds = [key(b.term["cond"]) for b in ib.blocks.values() if b.term is not None and "cond" in b.term]
@@ -391,19 +388,19 @@ def check_inputs(ctx):
                       "boundary predicate changed; facts %s" % fmt_atoms(atoms))
     # memtable output level
     pl = ctx.fn("ldb_version_pick_level_for_memtable_output", VS)
-    inc = [(b, i, e) for (b, i, e) in pl.events("inc") if key(e["x"]) == "level"]
+    inc = [(b, i, e.get("_of", e)) for (b, i, e) in incr_events(pl, "level", 1)]
     ctx.require(len(inc) == 1, "pick_level_for_memtable_output: level++ not found")
     gp = xgraph(P, pl)
 
     def ov_false(lvl):
         return lambda c, p: _overlap_truth(c, p, lvl) is False
     must_cross_edge_before(ctx, "T2-memtable-output-level", "no-overlap-level0", pl, ov_false("0"),
-                           lambda e: e["e"] == "inc" and key(e["x"]) == "level",
+                           lambda e: is_incr(e, "level", 1),
                            "a flushed table leaves level 0 only if it overlaps nothing there")
     must_cross_edge_before(ctx, "T2-memtable-output-level", "no-overlap-next", pl, ov_false("(level + 1)"),
-                           lambda e: e["e"] == "inc" and key(e["x"]) == "level",
+                           lambda e: is_incr(e, "level", 1),
                            "a flushed table moves down one level only if it overlaps nothing there",
-                           reset=lambda e: e["e"] == "inc" and key(e["x"]) == "level")
+                           reset=lambda e: is_incr(e, "level", 1))
     atoms = gp.must_at(inc[0][0], inc[0][1])
     ctx.check(holds(atoms, ("<", "level", 2)), "T2-memtable-output-level", "max-level", pl.name, site(pl, inc[0][2]),
               "flushed tables go at most to LDB_MAX_MEM_COMPACT_LEVEL", "memtable output level bound changed")
